@@ -7,7 +7,7 @@ from rtverif.props.c01 import rel_for
 
 class C16(Prop):
     id = 'C16'
-    rule_added = '30% of discrete cases under a sampling period p*unit (19 numbers x 3 units), 60% of those after a neighbour object with the same text and a finer period unit was evaluated. Bounds with the unit on both ends, the begin only or the end only. 20%: one object for the trace and its extension, possibly modular and after a call that failed part-way.'
+    rule_added = '4%: traces of 100-220 samples (extension 20-45) under windows of 64-200 samples. 30% of discrete cases under a sampling period p*unit (19 numbers x 3 units), 60% of those after a neighbour object with the same text and a finer period unit was evaluated. Bounds with the unit on both ends, the begin only or the end only. 20%: one object for the trace and its extension, possibly modular and after a call that failed part-way.'
     rule = ('random STL formulas without unbounded future (bounded eventually/always/until/unless, next, all past '
             'operators, Boolean, arithmetic) x a trace w1 (1..25 samples) and an extension w2 of 1..10 adversarial '
             'samples: two fresh offline specs evaluate w1 and w2 and must agree at every t with t+h < |w1| (h computed '
@@ -90,12 +90,21 @@ class C16(Prop):
         nv = rng.choice([1, 2, 2, 3])
         c = lang.GenCfg(vars=list(lang.VAR_POOL[:nv]), max_depth=rng.choice([1, 2, 3, 3, 4]),
                         unbounded_future=False, unless=True, max_bound=rng.choice([2, 4, 6]))
-        c.wide = 0.04          # a few windows of 64..200 samples
+        c.wide = 0.0           # (wide windows: only in the long-trace class below; the period classes multiply bounds by 1000)
         if rng.random() < 0.25:
             c.untyped = 0.2
         f = lang.gen_formula(rng, c)
         n1 = rng.randint(1, 25)
         ext = rng.randint(1, 10)
+        if rng.random() < 0.04:
+            # long traces under wide windows (the window, the trace and the extension are all longer than any block
+            # size an implementation might treat specially)
+            c.wide, c.max_depth = 0.7, rng.choice([1, 2])
+            for _ in range(30):
+                f = lang.gen_formula(rng, c)
+                if any(g[1] is not None and g[1][1] >= 63 for g in lang.walk(f)) and lang.horizon(f) == 0:
+                    break
+            n1, ext = rng.randint(100, 220), rng.randint(20, 45)
         names = lang.variables(f) or [c.vars[0]]
         data = lang.gen_trace(rng, names, n1 + ext)
         if rng.random() < 0.5:
@@ -103,6 +112,8 @@ class C16(Prop):
             for k in names:
                 data[k][n1:] = [big if rng.random() < 0.7 else -big for _ in range(ext)]
         case = {'formula': f, 'data': data, 'n1': n1}
+        if n1 >= 100:
+            return case                 # (no periods / neighbours on top: their windows are 1000 times as many samples)
         if rng.random() < 0.2:
             # one specification object for the trace and for its extension, possibly written as a modular
             # specification and possibly after a call that failed part-way (one variable without numbers)
